@@ -146,7 +146,7 @@ fn rule_list_quick() -> Vec<RuleSpec> {
 
 /// day set of the partial-tie sweep: the quick notations, the 4th and last week of every month for every week day, and the
 /// notations around 28/29 February and 1 March
-fn tie_days(all: bool, tabs: &Tables) -> Vec<Day> {
+pub fn tie_days(all: bool, tabs: &Tables) -> Vec<Day> {
     if all {
         return tabs.days.clone();
     }
